@@ -1,14 +1,14 @@
 #!/bin/sh
-# tools/confirm_seed.sh <id> <worktree> <demo-file> <package-dir-relative> : confirm a seeded change independently:
+# tools/confirm_seed.sh <id> <worktree> <demo-file> <package-dir-relative> <run-pattern>: confirm a seeded change independently:
 # builds, repository suite still at baseline, demonstration fails with the change and passes without it.
-ID=$1; WT=$2; DEMO=$3; PKG=$4
+ID=$1; WT=$2; DEMO=$3; PKG=$4; PAT=${5:-.}
 cd $WT || exit 9
-echo "== $ID: build"; go build ./... && echo build-ok
-echo "== $ID: repository suite with the change"; python3 /verif/tools/baseline.py $WT | head -3
+B=$(go build ./... 2>&1 && echo build-ok)
+T=$(python3 /verif/tools/baseline.py $WT | head -1)
 cp $DEMO $WT/$PKG/
-echo "== $ID: demo WITH the change (must fail)"; go test -count=1 ./$PKG/ 2>&1 | grep -E "^(--- FAIL|FAIL|ok)" | grep -v TestString | head -5
+W=$(go test -count=1 -run "$PAT" ./$PKG/ 2>&1 | grep -E "^(FAIL|ok)" | head -1)
 git stash -q
-echo "== $ID: demo WITHOUT the change (must pass)"; go test -count=1 ./$PKG/ 2>&1 | grep -E "^(--- FAIL|FAIL|ok)" | grep -v "TestString" | head -5
+WO=$(go test -count=1 -run "$PAT" ./$PKG/ 2>&1 | grep -E "^(FAIL|ok)" | head -1)
 git stash pop -q
 rm -f $WT/$PKG/$(basename $DEMO)
-git status --short | head -3
+echo "$ID | $B | $T | with: $W | without: $WO | $(git status --short | tr '\n' ' ')"
